@@ -266,67 +266,77 @@ def _check(case, rec, t):
             else:
                 text = run_cmd(summarize_table, args, case.get("sub"))
                 text = text[:-1] if text.endswith("\n") else text
-        M = D.T if obs_mode else D
-        unit_ids = ref.obs if obs_mode else ref.samp
-        counts = (M != 0).sum(axis=0).astype(float) if qual else M.sum(axis=0)
-        lines = text.split("\n")
-        fig = {}
-        for ln in lines:
-            if ": " in ln and (ln.startswith(" ") or ln.startswith("Num") or
-                               ln.startswith("Total") or
-                               ln.startswith("Table density")):
+        try:
+            M = D.T if obs_mode else D
+            unit_ids = ref.obs if obs_mode else ref.samp
+            counts = (M != 0).sum(axis=0).astype(float) if qual else M.sum(axis=0)
+            lines = text.split("\n")
+            fig = {}
+            for ln in lines:
+                if ": " in ln and (ln.startswith(" ") or ln.startswith("Num") or
+                                   ln.startswith("Total") or
+                                   ln.startswith("Table density")):
+                    k, v = ln.rsplit(": ", 1)
+                    fig[k.strip()] = v
+            if int(fig.get("Num samples", -1)) != m or \
+                    int(fig.get("Num observations", -1)) != n:
+                bad(kind, "Num samples/observations %r/%r, table is %d obs x %d "
+                    "samples\n%s" % (fig.get("Num samples"),
+                                     fig.get("Num observations"), n, m, text))
+            if not qual:
+                for key in ("Total count",
+                            "Table density (fraction of non-zero values)"):
+                    if key not in fig:
+                        bad(kind, "the quantitative report has no %r line:\n%s"
+                            % (key, text))
+                # whole-number tables have an exact total; otherwise the report
+                # truncates a float sum whose last bit depends on the order
+                exact = bool(np.all(D == np.floor(D))) and \
+                    float(np.abs(D).sum()) < 2 ** 52
+                if abs(int(fig["Total count"]) - D.sum()) > (0 if exact else 1):
+                    bad(kind, "Total count %s, matrix total %r" %
+                        (fig["Total count"], D.sum()))
+                dens = float((D != 0).sum()) / (n * m)
+                if not close3(float(fig[
+                        "Table density (fraction of non-zero values)"]), dens):
+                    bad(kind, "density %s, matrix gives %r" % (fig[
+                        "Table density (fraction of non-zero values)"], dens))
+            elif "Total count" in fig:
+                bad(kind, "qualitative report prints a total count")
+            for name, want in (("Min", counts.min()), ("Max", counts.max()),
+                               ("Median", np.median(counts)),
+                               ("Mean", np.mean(counts)),
+                               ("Std. dev.", np.std(counts))):
+                if name not in fig or not close3(float(fig[name]), float(want)):
+                    bad(kind, "%s %r, matrix gives %r\n%s" %
+                        (name, fig.get(name), want, text))
+            smd, omd = ref.samp_md, ref.obs_md
+            for label, md in (("Sample Metadata Categories", smd),
+                              ("Observation Metadata Categories", omd)):
+                want = "; ".join(md[0].keys()) if md else "None provided"
+                if sorted(fig.get(label, "").split("; ")) != \
+                        sorted(want.split("; ")):
+                    bad(kind, "%s %r, expected %r" % (label, fig.get(label),
+                                                      want))
+            start = [k for k, ln in enumerate(lines) if ln.endswith("detail:")]
+            detail = lines[start[-1] + 1:] if start else []
+            seen, prev = [], None
+            for ln in detail:
                 k, v = ln.rsplit(": ", 1)
-                fig[k.strip()] = v
-        if int(fig.get("Num samples", -1)) != m or \
-                int(fig.get("Num observations", -1)) != n:
-            bad(kind, "Num samples/observations %r/%r, table is %d obs x %d "
-                "samples\n%s" % (fig.get("Num samples"),
-                                 fig.get("Num observations"), n, m, text))
-        if not qual:
-            # whole-number tables have an exact total; otherwise the report
-            # truncates a float sum whose last bit depends on the order
-            exact = bool(np.all(D == np.floor(D))) and \
-                float(np.abs(D).sum()) < 2 ** 52
-            if abs(int(fig["Total count"]) - D.sum()) > (0 if exact else 1):
-                bad(kind, "Total count %s, matrix total %r" %
-                    (fig["Total count"], D.sum()))
-            dens = float((D != 0).sum()) / (n * m)
-            if not close3(float(fig[
-                    "Table density (fraction of non-zero values)"]), dens):
-                bad(kind, "density %s, matrix gives %r" % (fig[
-                    "Table density (fraction of non-zero values)"], dens))
-        elif "Total count" in fig:
-            bad(kind, "qualitative report prints a total count")
-        for name, want in (("Min", counts.min()), ("Max", counts.max()),
-                           ("Median", np.median(counts)),
-                           ("Mean", np.mean(counts)),
-                           ("Std. dev.", np.std(counts))):
-            if name not in fig or not close3(float(fig[name]), float(want)):
-                bad(kind, "%s %r, matrix gives %r\n%s" %
-                    (name, fig.get(name), want, text))
-        smd, omd = ref.samp_md, ref.obs_md
-        for label, md in (("Sample Metadata Categories", smd),
-                          ("Observation Metadata Categories", omd)):
-            want = "; ".join(md[0].keys()) if md else "None provided"
-            if sorted(fig.get(label, "").split("; ")) != \
-                    sorted(want.split("; ")):
-                bad(kind, "%s %r, expected %r" % (label, fig.get(label),
-                                                  want))
-        start = [k for k, ln in enumerate(lines) if ln.endswith("detail:")]
-        detail = lines[start[-1] + 1:] if start else []
-        seen, prev = [], None
-        for ln in detail:
-            k, v = ln.rsplit(": ", 1)
-            seen.append(k)
-            want = counts[unit_ids.index(k)] if k in unit_ids else None
-            if want is None or not close3(float(v), float(want)):
-                bad(kind, "detail line %r, matrix gives %r" % (ln, want))
-            if prev is not None and float(v) < prev - 1e-9:
-                bad(kind, "detail not ordered by value:\n%s" % text)
-            prev = float(v)
-        if sorted(seen) != sorted(unit_ids):
-            bad(kind, "detail lists %r, expected every id of %r once" %
-                (seen, unit_ids))
+                seen.append(k)
+                want = counts[unit_ids.index(k)] if k in unit_ids else None
+                if want is None or not close3(float(v), float(want)):
+                    bad(kind, "detail line %r, matrix gives %r" % (ln, want))
+                if prev is not None and float(v) < prev - 1e-9:
+                    bad(kind, "detail not ordered by value:\n%s" % text)
+                prev = float(v)
+            if sorted(seen) != sorted(unit_ids):
+                bad(kind, "detail lists %r, expected every id of %r once" %
+                    (seen, unit_ids))
+        except (ValueError, KeyError, IndexError) as e:
+            # a report that cannot even be read as the documented layout
+            bad(kind, "unreadable report (%s: %s):\n%s" % (
+                type(e).__name__, e, text))
         nt = True
     elif kind in ("table_ids", "head"):
         import h5py
